@@ -8,7 +8,7 @@ import numpy as np
 
 from .util import arr, jsonable
 
-GEOMS = ["lin", "tight", "log", "logedge", "mixedlog", "unb", "mixedunb", "wide", "offcentre"]
+GEOMS = ["lin", "tight", "log", "logedge", "mixedlog", "unb", "mixedunb", "wide", "offcentre", "logdecade", "nicelin"]
 
 
 def rng_for(seed, prop, idx):
@@ -61,6 +61,21 @@ def gen_bounds(rng, D, geom):
             sc = 10 ** rng.uniform(-6, 6)
             lb[i], ub[i] = -sc, sc * rng.uniform(0.5, 2)
             plb[i], pub[i] = lb[i] / 2, ub[i] / 2
+        elif g == "logdecade":
+            # decade-aligned bounds as users write them (0.01, 1, 10, 100): the transformed
+            # hard bounds are small integers / dyadic values, i.e. exactly ON the search mesh
+            a = int(rng.integers(-4, 1))
+            p_, q_, r_ = int(rng.choice([0, 1, 2], p=[0.2, 0.4, 0.4])), int(rng.choice([1, 2])), int(rng.choice([0, 1, 2], p=[0.2, 0.4, 0.4]))
+            lb[i], plb[i], pub[i], ub[i] = 10.0 ** a, 10.0 ** (a + p_), 10.0 ** (a + p_ + q_), 10.0 ** (a + p_ + q_ + r_)
+        elif g == "nicelin":
+            # hard bounds an integer number of plausible half-widths from the centre, with
+            # non-dyadic centre/half-width: transformed bounds are integers (on the mesh)
+            # while the inverse map is not bit-exact
+            mu_ = float(np.round(rng.uniform(-3, 3), 1))
+            ga_ = float(rng.choice([0.3, 0.7, 1.1, 0.15, 2.3]))
+            k_, m_ = int(rng.integers(1, 5)), int(rng.integers(1, 5))
+            plb[i], pub[i] = mu_ - ga_, mu_ + ga_
+            lb[i], ub[i] = mu_ - k_ * ga_, mu_ + m_ * ga_
         elif g == "offcentre":
             lo = rng.uniform(-10, 0)
             w = rng.uniform(1, 20)
@@ -168,6 +183,15 @@ def gen_target(rng, D, land, where, tl, tu):
 
 def eval_land(t, tt):
     """noise-free landscape value at normalised coordinate tt (1-D array)."""
+    base = _eval_land(t, tt)
+    for w in t.get("wells") or []:
+        # narrow deep well centred at a normalised point (C04 workload: 'the k-th evaluated point is the best')
+        if float(np.max(np.abs(tt - np.asarray(w["t"])))) <= w.get("r", 1e-9):
+            base = min(base, w["v"])
+    return base
+
+
+def _eval_land(t, tt):
     k = t["kind"]
     d = tt - np.asarray(t["c"])
     if k == "quad":
@@ -202,7 +226,7 @@ def eval_land(t, tt):
 # --------------------------------------------------------------------------
 # constraints (violation functions of X (N,D) in original coordinates)
 
-CONS = ["none", "halfspace", "ball", "annulus", "band", "hyperplane", "corner"]
+CONS = ["none", "halfspace", "ball", "annulus", "band", "hyperplane", "corner", "stripes"]
 
 
 def gen_cons(rng, D, kind, x0t, infeasible_start=False):
@@ -238,6 +262,14 @@ def gen_cons(rng, D, kind, x0t, infeasible_start=False):
         # feasible set of measure zero: coordinate 0 must equal the start exactly
         # (in original coordinates; filled by make_spec)
         c["x0_0"] = None
+    elif kind == "stripes":
+        # many thin feasible stripes (lots of boundary): feasible iff cos(2*pi*f*(a.(t-x0t))) >= thr
+        a = rng.normal(size=D)
+        a /= np.linalg.norm(a)
+        c["a"] = a.tolist()
+        c["ctr"] = x0t.tolist()
+        c["freq"] = float(rng.choice([3.0, 8.0, 20.0]))
+        c["thr"] = float(rng.choice([0.0, 0.5]))
     elif kind == "corner":
         # non-convex: infeasible iff all t_i > ctr_i (an orthant removed)
         c["ctr"] = (x0t + sgn * rng.uniform(0.05, 0.3, D)).tolist()
@@ -263,6 +295,8 @@ def eval_cons(c, X, plb, pub, logm):
             viol = np.maximum(c["r1"] - r, r - c["r2"])
         elif k == "band":
             viol = np.abs((T - np.asarray(c["ctr"])) @ np.asarray(c["a"])) - c["w"]
+        elif k == "stripes":
+            viol = c["thr"] - np.cos(2 * np.pi * c["freq"] * ((T - np.asarray(c["ctr"])) @ np.asarray(c["a"])))
         elif k == "corner":
             viol = np.min(T - np.asarray(c["ctr"]), axis=1)
         else:
@@ -364,7 +398,11 @@ class Problem:
         self.cons_spec = spec.get("cons") or {"kind": "none"}
         self.options = dict(spec.get("options") or {})
         self.mode = self.noise["mode"]
-        self._priv = np.random.default_rng(self.options.get("random_seed", 0) + 12345)
+        try:
+            sd_ = int(self.options.get("random_seed") or 0)
+        except (TypeError, ValueError):
+            sd_ = 0
+        self._priv = np.random.default_rng(sd_ + 12345)
 
     def clean(self, x):
         x = np.asarray(x, float).ravel()
